@@ -204,7 +204,7 @@ def binary_cfg(rng):
     return small_cfg(fields, customs, render=rend, rename=ren, keys=keys, nfmaps=nf)
 
 
-def binary_run(exe, y, toks, hist, kind):
+def binary_run(exe, y, toks, hist, kind, fmt='json'):
     """one run of the real goflow2 binary: -mapping <file> -format json -transport file, one socket, one worker, blocking;
     the datagrams of `hist` sent from one local socket; SIGTERM; -> (exit status, lines of the output file, model line)"""
     import socket, signal, tempfile, subprocess, time
@@ -219,9 +219,9 @@ def binary_run(exe, y, toks, hist, kind):
     s.close()
     out = tempfile.mktemp(prefix='e2e', dir='/root/scratch')
     mp = out + '.yaml'
-    open(mp, 'w').write(y)
+    open(mp, 'w').write(y or '')
     pr = subprocess.Popen([exe, '-listen', '%s://127.0.0.1:%d?count=1&workers=1&blocking=true' % (kind, port), '-transport', 'file',
-                           '-transport.file', out, '-format', 'json', '-mapping', mp, '-addr', '', '-loglevel', 'error'],
+                           '-transport.file', out, '-format', fmt] + (['-transport.file.sep='] if fmt == 'bin' else []) + (['-mapping', mp] if y else []) + ['-addr', '', '-loglevel', 'error'],
                           stdout=subprocess.PIPE, stderr=subprocess.PIPE)
     # wait until the collector listens (the port shows up in /proc/net/udp), at most 20 s
     hexport = ':%04X ' % port
@@ -256,17 +256,23 @@ def binary_run(exe, y, toks, hist, kind):
         rc = 'timeout'
     tx.close()
     try:
-        lines = open(out, 'rb').read().split(b'\n')
+        raw = open(out, 'rb').read()
     except Exception:
-        lines = []
-    if lines and lines[-1] == b'':
-        lines.pop()
+        raw = b''
+    if fmt == 'bin':
+        lines = raw
+    else:
+        lines = raw.split(b'\n')
+        if lines and lines[-1] == b'':
+            lines.pop()
     for p in (out, mp):
         try:
             os.remove(p)
         except OSError:
             pass
     h2 = ' '.join(' '.join(['=7f000001', '#%x' % sport, q[2], q[3]]) for q in quads)
+    if not y:
+        return rc, lines, 'fmtchk %s none %s' % (kind, h2)
     return rc, lines, 'pipec %s yamlj:%s %s %s' % (kind, y.encode().hex(), ' '.join(toks), h2)
 
 
